@@ -626,6 +626,12 @@ class Interp(object):
                 hit, v = self.domain.call(self, f, args, kwargs)
                 if hit:
                     return v
+        if f.name in ("re.compile", "re.match", "re.search", "re.fullmatch", "re.sub", "re.escape") and not _has_abs(args):
+            import re as _re
+            try:
+                return getattr(_re, n)(*args, **kwargs)
+            except Exception as ex:
+                raise AbsRaise(type(ex).__name__, ex.args)
         if n == "partial":
             return Partial(args[0], args[1:], kwargs)
         if n == "warn":
@@ -722,6 +728,15 @@ class Interp(object):
             if not hasattr(obj, name):
                 raise AbsRaise("AttributeError", ("%s has no attribute %s" % (type(obj).__name__, name),))
             return Prim(lambda it, a, k, o=obj, n=name: it.py_method(o, n, a, k), "%s.%s" % (type(obj).__name__, name))
+        import re as _re
+        if isinstance(obj, _re.Pattern) and name in ("match", "search", "fullmatch", "sub", "findall"):
+            def call(it, a, k, o=obj, n=name):
+                if _has_abs(a):
+                    it.unsupported("regular expression on abstract text")
+                return getattr(o, n)(*a, **k)
+            return Prim(call, "re.Pattern." + name)
+        if isinstance(obj, _re.Match) and name in ("group", "groups", "start", "end", "span"):
+            return Prim(lambda it, a, k, o=obj, n=name: getattr(o, n)(*a, **k), "re.Match." + name)
         self.unsupported("attribute %s of python value %r" % (name, obj), node)
 
     def py_method(self, obj, name, args, kwargs):
